@@ -66,6 +66,7 @@ type replayVector struct {
 	Values  map[string]uint64 `json:"values"`
 	Choices []int             `json:"choices"`
 	Prefixes  []string        `json:"prefixes,omitempty"`
+	Stubs     map[string]string `json:"stubs,omitempty"`
 	KnownOpen []string        `json:"known_open,omitempty"`
 	Expect  struct {
 		Kind string `json:"kind"`
@@ -89,7 +90,7 @@ type replayResult struct {
 var harnessRe = regexp.MustCompile(`(?m)^func (Harness_\w+)\(([^)]*)\)`)
 
 // nativeOverlay writes the overlay json for `go test -overlay` and returns its path.
-func nativeOverlay(workDir string) (string, error) {
+func nativeOverlay(workDir string, stubs map[string]string) (string, error) {
 	hdir := filepath.Join(verifDir, "harness")
 	replace := map[string]string{}
 	type pk struct {
@@ -216,6 +217,9 @@ func nativeOverlay(workDir string) (string, error) {
 		os.WriteFile(tf, []byte(sb.String()), 0o644)
 		replace[filepath.Join(repoRoot, rel, "zz_verif_replay_test.go")] = tf
 	}
+	if err := stubOverlay(workDir, stubs, replace); err != nil {
+		return "", err
+	}
 	ov, _ := json.Marshal(map[string]interface{}{"Replace": replace})
 	ovPath := filepath.Join(workDir, "overlay.json")
 	if err := os.WriteFile(ovPath, ov, 0o644); err != nil {
@@ -228,13 +232,18 @@ var testBinMu sync.Mutex
 var testBins = map[string]string{}
 
 // nativeTestBinary compiles the replay test binary of a package (once per run).
-func nativeTestBinary(workDir, pkg string) (string, error) {
+func nativeTestBinary(workDir, pkg string, stubs map[string]string) (string, error) {
 	testBinMu.Lock()
 	defer testBinMu.Unlock()
-	if b, ok := testBins[pkg]; ok {
+	key := pkg + "|" + stubKey(stubs)
+	if b, ok := testBins[key]; ok {
 		return b, nil
 	}
-	ov, err := nativeOverlay(workDir)
+	if len(stubs) > 0 {
+		workDir = filepath.Join(workDir, fmt.Sprintf("stubs%d", len(testBins)))
+		os.MkdirAll(workDir, 0o755)
+	}
+	ov, err := nativeOverlay(workDir, stubs)
 	if err != nil {
 		return "", err
 	}
@@ -246,17 +255,21 @@ func nativeTestBinary(workDir, pkg string) (string, error) {
 	if err != nil {
 		return "", fmt.Errorf("building replay binary for %s: %v\n%s", pkg, err, out)
 	}
-	testBins[pkg] = bin
+	testBins[key] = bin
 	return bin, nil
 }
 
 // runNative replays vectors natively; returns a result per file.
 func runNative(workDir, pkg string, files []string) (map[string]replayResult, error) {
+	return runNativeStubs(workDir, pkg, files, nil)
+}
+
+func runNativeStubs(workDir, pkg string, files []string, stubs map[string]string) (map[string]replayResult, error) {
 	res := map[string]replayResult{}
 	if len(files) == 0 {
 		return res, nil
 	}
-	bin, err := nativeTestBinary(workDir, pkg)
+	bin, err := nativeTestBinary(workDir, pkg, stubs)
 	if err != nil {
 		return nil, err
 	}
@@ -469,9 +482,10 @@ func cmdCheck(args []string) {
 	exit := 0
 	var engineProblems []string
 	type vrec struct {
-		v    sym.Violation
-		pkg  string
-		file string
+		v     sym.Violation
+		pkg   string
+		file  string
+		stubs map[string]string
 	}
 	var vrecs []vrec
 	var sampleFiles []string
@@ -486,16 +500,16 @@ func cmdCheck(args []string) {
 			engineProblems = append(engineProblems, fmt.Sprintf("%s%v: inconclusive: %s (x%d)", jobs[i].Harness, jobs[i].Args, why, n))
 		}
 		for _, v := range r.Violations {
-			vec := replayVector{Harness: v.Harness, Pkg: jobs[i].Pkg, Args: v.Args, Values: v.Model, Choices: v.Choices, Property: id, Known: v.KnownID, Prefixes: spec.AssertPrefix}
+			vec := replayVector{Harness: v.Harness, Pkg: jobs[i].Pkg, Args: v.Args, Values: v.Model, Choices: v.Choices, Property: id, Known: v.KnownID, Prefixes: spec.AssertPrefix, Stubs: jobs[i].Cfg.Stubs}
 			if v.KnownID == "" {
 				vec.KnownOpen = knownOpenList
 			}
 			vec.Expect.Kind, vec.Expect.ID, vec.Expect.Msg = v.Kind, v.ID, v.Msg
 			f := writeVector(filepath.Join(replayDir, id), vec)
-			vrecs = append(vrecs, vrec{v, jobs[i].Pkg, f})
+			vrecs = append(vrecs, vrec{v, jobs[i].Pkg, f, jobs[i].Cfg.Stubs})
 		}
 		for _, s := range r.Samples {
-			vec := replayVector{Harness: s.Harness, Pkg: jobs[i].Pkg, Args: s.Args, Values: s.Inputs, Choices: s.Choices, Property: id, Observed: s.Observed, Prefixes: spec.AssertPrefix, KnownOpen: knownOpenList}
+			vec := replayVector{Harness: s.Harness, Pkg: jobs[i].Pkg, Args: s.Args, Values: s.Inputs, Choices: s.Choices, Property: id, Observed: s.Observed, Prefixes: spec.AssertPrefix, KnownOpen: knownOpenList, Stubs: jobs[i].Cfg.Stubs}
 			vec.Expect.Kind = "sample"
 			f := writeVector(filepath.Join(workDir, "samples"), vec)
 			sampleFiles = append(sampleFiles, f)
@@ -504,13 +518,23 @@ func cmdCheck(args []string) {
 		}
 	}
 	// native confirmation of violations
-	byPkg := map[string][]string{}
+	type grp struct {
+		pkg   string
+		stubs map[string]string
+		files []string
+	}
+	byPkg := map[string]*grp{}
 	for _, vr := range vrecs {
-		byPkg[vr.pkg] = append(byPkg[vr.pkg], vr.file)
+		k := vr.pkg + "|" + stubKey(vr.stubs)
+		if byPkg[k] == nil {
+			byPkg[k] = &grp{pkg: vr.pkg, stubs: vr.stubs}
+		}
+		byPkg[k].files = append(byPkg[k].files, vr.file)
 	}
 	native := map[string]replayResult{}
-	for pkg, files := range byPkg {
-		rs, err := runNative(workDir, pkg, files)
+	for _, g := range byPkg {
+		pkg, files := g.pkg, g.files
+		rs, err := runNativeStubs(workDir, pkg, files, g.stubs)
 		if err != nil {
 			engineProblems = append(engineProblems, err.Error())
 			continue
@@ -569,12 +593,18 @@ func cmdCheck(args []string) {
 	}
 	// translator validation: replay sampled path witnesses natively and compare observed values
 	if len(sampleFiles) > 0 {
-		byPkg := map[string][]string{}
+		byPkg := map[string]*grp{}
 		for _, f := range sampleFiles {
-			byPkg[samplePkg[f]] = append(byPkg[samplePkg[f]], f)
+			st := sampleVec[f].Stubs
+			k := samplePkg[f] + "|" + stubKey(st)
+			if byPkg[k] == nil {
+				byPkg[k] = &grp{pkg: samplePkg[f], stubs: st}
+			}
+			byPkg[k].files = append(byPkg[k].files, f)
 		}
-		for pkg, files := range byPkg {
-			rs, err := runNative(workDir, pkg, files)
+		for _, g := range byPkg {
+			pkg, files := g.pkg, g.files
+			rs, err := runNativeStubs(workDir, pkg, files, g.stubs)
 			if err != nil {
 				engineProblems = append(engineProblems, err.Error())
 				continue
@@ -682,7 +712,7 @@ func doReplay(workDir, id, file string) int {
 		return 2
 	}
 	abs, _ := filepath.Abs(file)
-	rs, err := runNative(workDir, vec.Pkg, []string{abs})
+	rs, err := runNativeStubs(workDir, vec.Pkg, []string{abs}, vec.Stubs)
 	if err != nil {
 		fmt.Println(err)
 		return 2
